@@ -86,7 +86,37 @@ def check_case(case):
     else:
         cmd += ["-o", arch, "in.dat"]
     cmd[1:1] = ["-v"] * case.get("verbose", 0)
-    rc, err = run(cmd, d, case["close_stdin"])
+    pieces = case.get("fifo")
+    if pieces and outmode != 1:
+        # the input arrives through a FIFO in pieces (each written only after the previous one was taken): a read that returns less
+        # than a block is not the end of the input
+        import fcntl, termios, struct, time
+        os.unlink(os.path.join(d, "in.dat")); os.mkfifo(os.path.join(d, "in.dat")); label("input-through-fifo")
+        ef = open(os.path.join(d, "zck.err"), "wb")        # not a pipe: nobody drains it while the input is being fed, and -v -v -v writes a lot
+        p = subprocess.Popen(cmd, cwd=d, stdin=subprocess.DEVNULL, stdout=subprocess.DEVNULL, stderr=ef, preexec_fn=limits); ok = True
+        try:
+            fd = os.open(os.path.join(d, "in.dat"), os.O_WRONLY); off = 0; k = 0; buf = bytearray(4)
+            while off < len(data) and ok:
+                n = max(1, len(data) // 3000, min(pieces[k % len(pieces)], 60000)); k += 1; os.write(fd, data[off:off + n]); off += n; t0 = time.time()
+                while True:
+                    fcntl.ioctl(fd, termios.FIONREAD, buf)
+                    if struct.unpack("i", bytes(buf))[0] == 0:
+                        break
+                    if p.poll() is not None or time.time() - t0 > 30:
+                        ok = False; break
+                    time.sleep(0.0002)
+            os.close(fd)
+        except BrokenPipeError:
+            ok = False
+        try:
+            p.wait(timeout=120)
+        except subprocess.TimeoutExpired:
+            p.kill(); p.wait()
+        ef.close(); rc, err = p.returncode, open(os.path.join(d, "zck.err"), "rb").read().decode("latin1")[-600:]
+        if not ok and rc == 0:
+            return ("lost-bytes", "zck exited 0 although it stopped reading its input (a FIFO fed in pieces %s) before the end" % pieces[:6])
+    else:
+        rc, err = run(cmd, d, case["close_stdin"])
     if rc in (-9, -24):
         return ("zck-hang", "zck did not terminate within 60 s of CPU time: %s" % " ".join(cmd[1:]))
     if rc != 0:
@@ -179,7 +209,8 @@ def cases(draw):
     length = draw(st.one_of(st.integers(0, 300), st.integers(BLOCK - 10, BLOCK + 10), st.integers(2 * BLOCK - 10, 2 * BLOCK + 10), st.integers(0, 4 * BLOCK)))
     placements = draw(st.lists(st.tuples(st.integers(0, 3), st.integers(-(len(s) + 1), 2), st.booleans()), max_size=5)) if split else []
     tail = draw(st.integers(0, len(s) - 1)) if split and draw(st.booleans()) else 0
-    return {"split": split, "filler": filler, "length": length, "placements": [list(p) for p in placements], "tail_prefix": tail,
+    fifo = draw(st.one_of(st.none(), st.none(), st.none(), st.lists(st.sampled_from([1, 100, 4095, 4096, 10000, 32767, 32768, 32769, 50000]), min_size=1, max_size=4), st.lists(st.integers(1, 40000), min_size=1, max_size=3)))
+    return {"fifo": fifo, "split": split, "filler": filler, "length": length, "placements": [list(p) for p in placements], "tail_prefix": tail,
             "manual": draw(st.booleans()), "hash": draw(st.sampled_from([None, None, "sha256", "sha512", "sha512_128"])), "uncomp": draw(st.integers(0, 4)) == 0,
             "comp": draw(st.sampled_from([None, "zstd", "none"])), "dict": list(draw(st.binary(min_size=1, max_size=400))) if draw(st.integers(0, 4)) == 0 else None,
             "close_stdin": draw(st.integers(0, 4)) == 0, "outmode": draw(st.sampled_from([0, 0, 1, 2])), "to_stdout": draw(st.integers(0, 3)) == 0,
